@@ -370,6 +370,78 @@ def r7_every_user_recorded(ctx):
   ctx.check(R, len(outer) == 1 and head.id in g.loop_body_nodes(outer[0].id), head.ast, gen, 'all subgraphs', 'operators of every subgraph must be visited')
 
 
+def r8_sharing_simulation(ctx):
+  """buffer_to_tensors + _check_buffer_sharing run on label models in which
+  constants share buffers (same tensor used twice, two tensors of one subgraph,
+  tensors of two subgraphs), for every assignment of plans to the sharers from
+  a small alphabet. Oracle: the check raises exactly when the sharers would
+  leave the buffer in two different forms (float vs quantized, or quantized
+  with different parameters) - in whatever order they are listed."""
+  import itertools  # pylint: disable=g-import-not-at-top
+  from sa import absint  # pylint: disable=g-import-not-at-top
+  R = 'C15.R8'
+  rs = ctx.rule(R, 'sharing simulation: conflicting requests on one buffer are rejected, compatible ones accepted, for every order and multiplicity of the sharers', floor=1)
+  b2t = ctx.repo.func(f'{FBU}:buffer_to_tensors')
+  chk = ctx.repo.func(f'{PG}._check_buffer_sharing')
+  ctx.instance(R)
+  QT = {m.name: m for m in tables.enum(ctx, 'qtyping:QuantTransformation')}
+  TTP, OTP = 'qtyping:TensorTransformationParams', 'qtyping:OpToTensorParams'
+  # what an operand request does to the stored bytes: (first transformation, parameters token) -> form
+  alphabet = {'float': ('NO_QUANTIZE', None), 'q(P)': ('QUANTIZE_TENSOR', 'P'), 'q(Q)': ('QUANTIZE_TENSOR', 'Q'), 'dq(P)': ('ADD_DEQUANTIZE', 'P'), 'addq': ('ADD_QUANTIZE', 'P')}
+  form = {'float': ('float', None), 'q(P)': ('quantized', 'P'), 'q(Q)': ('quantized', 'Q'), 'dq(P)': ('quantized', 'P'), 'addq': ('float', None)}
+
+  def model(layout):
+    # layout: list of subgraphs; subgraph = list of ops; op = list of (tensor name, buffer)
+    sgs = []
+    for ops in layout:
+      names = []
+      for op in ops:
+        for nm, _ in op:
+          if nm not in names:
+            names.append(nm)
+      bufs = {nm: b for op in ops for nm, b in op}
+      tensors = [Obj('x:TensorT', {'name': nm.encode(), 'buffer': bufs[nm]}) for nm in names]
+      operators = [Obj('x:OperatorT', {'inputs': [names.index(nm) for nm, _ in op], 'outputs': []}) for op in ops]
+      sgs.append(Obj('x:SubGraphT', {'tensors': tensors, 'operators': operators}))
+    return Obj('x:ModelT', {'subgraphs': sgs})
+  layouts = {
+      'one tensor read by two operators': ([[[('a', 1)], [('a', 1)]]], [('a', 2)]),
+      'two tensors on one buffer': ([[[('a', 1)], [('b', 1)]]], [('a', 1), ('b', 1)]),
+      'two tensors in two subgraphs on one buffer': ([[[('a', 1)]], [[('b', 1)]]], [('a', 1), ('b', 1)]),
+      'three sharers, the first read twice': ([[[('a', 1), ('x', 2)], [('a', 1)], [('b', 1)]], [[('c', 1)]]], [('a', 2), ('b', 1), ('c', 1)]),
+  }
+  rs.exhaustive = True
+  for lname, (layout, users) in layouts.items():
+    slots = [(nm, k) for nm, n in users for k in range(n)]
+    for assign in itertools.product(alphabet, repeat=len(slots)):
+      if len(slots) > 3 and len(set(assign)) > 2:
+        continue   # keep the largest layout to two request kinds
+      it = absint.Interp(ctx.repo, ctx.ev)
+      m = model(layout)
+      o = it.outcomes(b2t, [m], copy_args=False)
+      if len(o) != 1 or o[0].kind != 'return' or not isinstance(o[0].value, dict):
+        ctx.check(R, False, b2t.node, b2t, lname, f'buffer map not decided: {[x.short()[:80] for x in o]}')
+        break
+      results = {}
+      for (nm, k), a in zip(slots, assign):
+        t, p = alphabet[a]
+        e = results.setdefault(nm, Obj(TTP, {'tensor_name': nm, 'producer': None, 'consumers': []}))
+        e.fields['consumers'].append(Obj(OTP, {'subgraph_op_id': k, 'transformations': [QT[t]], 'parameters': p}))
+      for nm in ('x',):
+        results.setdefault(nm, Obj(TTP, {'tensor_name': nm, 'producer': None, 'consumers': [Obj(OTP, {'subgraph_op_id': 0, 'transformations': [QT['NO_QUANTIZE']], 'parameters': None})]}))
+      pg = Obj(PG, {'buffer_to_tensors': o[0].value, 'model_quant_results': results, 'flatbuffer_model': m})
+      r = it.outcomes(chk, [pg], copy_args=False)
+      if len(r) != 1:
+        ctx.check(R, False, chk.node, chk, f'{lname}: {dict(zip(slots, assign))}', f'not decided: {[x.short()[:80] for x in r]}')
+        continue
+      raised = r[0].kind == 'raise'
+      forms = {form[a] for a in assign}
+      want = len(forms) > 1
+      label = f'{lname}: requests {[f"{nm}#{k}={a}" for (nm, k), a in zip(slots, assign)]}'
+      ctx.check(R, raised == want, chk.node, chk, label,
+                f'the request is {"rejected" if raised else "accepted"}; the sharers would leave the buffer as {sorted(map(str, forms))}: it must be {"rejected" if want else "accepted"}')
+
+
 def run(ctx):
   r1_must_call(ctx)
   r2_coverage(ctx)
@@ -378,3 +450,4 @@ def run(ctx):
   r5_compat_table(ctx)
   shared.rule_exact_equality(ctx, 'C15.R6')
   r7_every_user_recorded(ctx)
+  r8_sharing_simulation(ctx)
